@@ -8,6 +8,13 @@ package middleware
 // now and then, a middleware's writer wrapper left in place (a middleware that
 // panicked past its restore). Observed per operation: which transport received
 // which bytes (or nothing).
+//
+// Second half of the cases ("chains"): SEVERAL requests in flight at once on the
+// real Pipeline / Chain objects, the way concurrent serves overlap — wire-born
+// ones on slab-owned chains (BindChain; ResetWire; ...; Finish), pooled ones
+// (NewChain; Reset; ...; PutChain) — in a generated interleaving driven from
+// one goroutine. Every request has its own transport. Observed: which chain
+// object NewChain handed out (by identity) and which transport each Write reached.
 
 import (
 	"encoding/json"
@@ -173,6 +180,123 @@ func TestVerifC10Writer(t *testing.T) {
 			"coq":        fmt.Sprintf("CaseWriter [%s] [%s]", strings.Join(ops, ";"), strings.Join(obs, ";")),
 			"nontrivial": len(sink) > 1,
 			"desc":       map[string]any{"ops": len(ops), "emissions": len(sink), "kinds": kinds},
+		}
+		b, _ := json.Marshal(line)
+		f.Write(append(b, '\n'))
+	}
+
+	for cn := 0; cn < n/2; cn++ {
+		pl := newPipeline(nil, map[string]Handler{}, nil, RecursionWorkPolicy{})
+		var sink []vC10Emit
+		nslabs := 1 + r.Intn(3)
+		slabCh := make([]*Chain, nslabs)
+		chainID := map[*Chain]int{}
+		for j := range slabCh {
+			slabCh[j] = new(Chain)
+			chainID[slabCh[j]] = j
+		}
+		type inflight struct {
+			r, slab int // slab -1: pooled
+			ch      *Chain
+			req     *dns.Msg
+		}
+		var live []*inflight
+		slabBusy := make([]bool, nslabs)
+		var ops, obs []string
+		kinds := map[string]int{}
+		next := 0
+		emitNone := func(op string) {
+			ops = append(ops, op)
+			obs = append(obs, "None")
+		}
+		end := func(i int) {
+			x := live[i]
+			live = append(live[:i], live[i+1:]...)
+			if x.slab >= 0 {
+				x.ch.Finish()
+				slabBusy[x.slab] = false
+				emitNone(fmt.Sprintf("KEW %d", x.r))
+				kinds["end-wire"]++
+			} else {
+				pl.PutChain(x.ch)
+				emitNone(fmt.Sprintf("KEP %d", x.r))
+				kinds["end-pooled"]++
+			}
+		}
+		nops := 8 + r.Intn(16)
+		for op := 0; op < nops; op++ {
+			k := r.Intn(10)
+			switch {
+			case k < 4 || len(live) == 0: // a request begins
+				next++
+				req := new(dns.Msg)
+				req.SetQuestion(fmt.Sprintf("q%d.c%d.chains.test.", next, cn), dns.TypeA)
+				req.Id = uint16(r.Intn(65536))
+				tr := &vC10Tr{id: next, tcp: next%2 == 0, sink: &sink}
+				free := -1
+				for j := range slabBusy {
+					if !slabBusy[j] && r.Intn(2) == 0 {
+						free = j
+					}
+				}
+				if free >= 0 && r.Intn(3) != 0 {
+					ch := slabCh[free]
+					pl.BindChain(ch)
+					ch.ResetWire(tr, NewRequest(req))
+					ch.AllowDirectPack()
+					slabBusy[free] = true
+					live = append(live, &inflight{next, free, ch, req})
+					emitNone(fmt.Sprintf("KBW %d %d", next, free))
+					kinds["begin-wire"]++
+				} else {
+					ch := pl.NewChain()
+					id, seen := chainID[ch]
+					if !seen {
+						id = len(chainID)
+						chainID[ch] = id
+					}
+					ch.Reset(tr, req)
+					live = append(live, &inflight{next, -1, ch, req})
+					emitNone(fmt.Sprintf("KBP %d %d", next, id))
+					kinds["begin-pooled"]++
+					if seen {
+						kinds["pooled-chain-reused"]++
+					}
+				}
+			case k < 8: // a request in flight writes its reply (or tries a second time)
+				x := live[r.Intn(len(live))]
+				m := new(dns.Msg)
+				m.SetReply(x.req)
+				m.Answer = []dns.RR{&dns.A{Hdr: dns.RR_Header{Name: x.req.Question[0].Name, Rrtype: dns.TypeA, Class: dns.ClassINET, Ttl: uint32(r.Intn(600))}, A: net.IPv4(10, 1, byte(x.r), byte(r.Intn(256)))}}
+				want, _ := m.Pack()
+				before := len(sink)
+				if r.Intn(2) == 0 {
+					_, _ = x.ch.Writer.Write(want)
+				} else {
+					_ = x.ch.Writer.WriteMsg(m)
+				}
+				ops = append(ops, fmt.Sprintf("KW %d %s", x.r, vC10WRLE(want)))
+				switch len(sink) - before {
+				case 0:
+					obs = append(obs, "None")
+				case 1:
+					obs = append(obs, fmt.Sprintf("Some (%d,%s)", sink[before].tr, vC10WRLE(sink[before].b)))
+				default:
+					obs = append(obs, "Some (999999,[])")
+				}
+				kinds["write"]++
+			default:
+				end(r.Intn(len(live)))
+			}
+		}
+		for len(live) > 0 {
+			end(0)
+		}
+		line := map[string]any{
+			"k":          "chains",
+			"coq":        fmt.Sprintf("CaseChains %d [%s] [%s]", nslabs, strings.Join(ops, ";"), strings.Join(obs, ";")),
+			"nontrivial": len(sink) > 1 && kinds["pooled-chain-reused"] > 0,
+			"desc":       map[string]any{"slabs": nslabs, "ops": len(ops), "emissions": len(sink), "kinds": kinds},
 		}
 		b, _ := json.Marshal(line)
 		f.Write(append(b, '\n'))
